@@ -198,7 +198,10 @@ func sampleJSON(r *rng, t *tnode, mode int, depth int) string {
 	case 'b':
 		return pick(r, []string{"true", "false"})
 	case 'i':
-		return pick(r, []string{"0", "1", "-7", "42", "1000000"})
+		// also integers beyond 2^53 and numerals that are not integer literals: the exact JSON text of an element
+		// matters (9007199254740993 must arrive as that number, 1.0 / 1e2 are not ints for encoding/json)
+		return pick(r, []string{"0", "1", "-7", "42", "1000000", "0", "1", "-7", "42", "9007199254740993", "-9007199254740993",
+			"9223372036854775807", "1.0", "1e2", "18446744073709551615"})
 	case 'f':
 		return pick(r, []string{"1.5", "0", "-2.25", "3"})
 	case 's':
